@@ -434,3 +434,59 @@ func nearLiteralCases() []*ProgCase {
 	}
 	return out
 }
+
+// sharedOperandCases: one variable (one run-time node) used several times on
+// one side of == / != / a set function, against equal and differing values
+// held in other nodes.
+func sharedOperandCases() []*ProgCase {
+	var out []*ProgCase
+	k := 0
+	for _, inner := range []*ref.Ty{ref.TList(ref.TNum), ref.TMap(ref.TStr, ref.TNum), ref.TObj(ref.F("p", ref.TNum), ref.F("q", ref.TStr))} {
+		mk := func(x float64) *ref.V {
+			switch inner.K {
+			case ref.KList:
+				return ref.VList(ref.TNum, ref.VNum(x), ref.VNum(2))
+			case ref.KMap:
+				return ref.VMap(ref.TStr, ref.TNum, ref.KV{K: ref.VStr("k"), V: ref.VNum(x)})
+			}
+			return ref.VObj(inner, ref.VNum(x), ref.VStr("s"))
+		}
+		env := bridge.NewEnv()
+		env.Put("m", mk(1))
+		env.Put("a", mk(1))
+		env.Put("b", mk(9))
+		env.Put("o", ref.VObj(ref.TObj(ref.F("p", inner), ref.F("q", inner)), mk(1), mk(9)))
+		id := func(n string) func() *ref.E { return func() *ref.E { return ref.Ident(n) } }
+		M, A, B := id("m"), id("a"), id("b")
+		sides := [][2]func() *ref.E{
+			{func() *ref.E { return ref.List(M(), M()) }, func() *ref.E { return ref.List(A(), B()) }},
+			{func() *ref.E { return ref.List(M(), M()) }, func() *ref.E { return ref.List(A(), A()) }},
+			{func() *ref.E { return ref.List(M(), M(), M()) }, func() *ref.E { return ref.List(A(), M(), B()) }},
+			{func() *ref.E { return ref.Obj([]string{"u", "v"}, []*ref.E{M(), M()}) }, func() *ref.E { return ref.Obj([]string{"u", "v"}, []*ref.E{A(), B()}) }},
+			{func() *ref.E { return ref.Obj([]string{"u", "v"}, []*ref.E{M(), M()}) }, func() *ref.E { return ref.Obj([]string{"v", "u"}, []*ref.E{B(), A()}) }},
+			{func() *ref.E { return ref.Map([]*ref.E{ref.Str("x"), ref.Str("y")}, []*ref.E{M(), M()}) }, func() *ref.E { return ref.Map([]*ref.E{ref.Str("x"), ref.Str("y")}, []*ref.E{A(), B()}) }},
+			{func() *ref.E { return ref.List(ref.List(M()), ref.List(M())) }, func() *ref.E { return ref.List(ref.List(A()), ref.List(B())) }},
+			{func() *ref.E { return ref.List(ref.Member(ref.Ident("o"), "p"), ref.Member(ref.Ident("o"), "p")) }, func() *ref.E { return ref.List(A(), B()) }},
+			{func() *ref.E { return ref.List(M(), B(), M()) }, func() *ref.E { return ref.List(A(), B(), B()) }},
+		}
+		for _, s := range sides {
+			for _, flip := range []bool{false, true} {
+				l, r := s[0], s[1]
+				if flip {
+					l, r = r, l
+				}
+				progs := []*ref.E{
+					ref.CallF(ref.FInfix, "==", l(), r()), ref.CallF(ref.FInfix, "!=", l(), r()),
+					ref.Call("len", ref.Call("union", ref.List(l()), ref.List(r()))), ref.Call("len", ref.Call("intersect", ref.List(l()), ref.List(r()))),
+					ref.CallF(ref.FInfix, "==", ref.Call("string", l()), ref.Call("string", r())),
+					ref.Call("if", ref.CallF(ref.FInfix, "==", l(), r()), ref.Num("1", 1), ref.Num("2", 2)),
+				}
+				for _, e := range progs {
+					k++
+					out = append(out, &ProgCase{ID: fmt.Sprintf("shared-operand/%d", k), Src: ref.Render(e), E: e, Env: env})
+				}
+			}
+		}
+	}
+	return out
+}
